@@ -619,7 +619,11 @@ def scalar_cmp(op, a, b, fp=False):
             return zand(scalar_cmp('==', a.re, b.re, fp), scalar_cmp('==', a.im, b.im, fp))
         if op == '!=':
             return zor(scalar_cmp('!=', a.re, b.re, fp), scalar_cmp('!=', a.im, b.im, fp))
-        raise Unsupported('ordering of complex values')
+        # NumPy orders complex array elements lexicographically (real part, then imaginary part); for dual numbers
+        # the eps-part has the sign of the (positive) step times the direction, so the tie rule carries over
+        strict = {'<': '<', '<=': '<', '>': '>', '>=': '>'}[op]
+        return zor(scalar_cmp(strict, a.re, b.re, fp),
+                   zand(scalar_cmp('==', a.re, b.re, fp), scalar_cmp(op, a.im, b.im, fp)))
     if isinstance(a, str) or isinstance(b, str):
         if isinstance(a, str) and isinstance(b, str):
             return {'==': a == b, '!=': a != b, '<': a < b, '<=': a <= b, '>': a > b, '>=': a >= b}[op]
